@@ -31,6 +31,21 @@ type C15Case struct {
 	Pos    []int   `json:"pos,omitempty"`   // lifted: positional types (may repeat)
 	Calls  int     `json:"calls,omitempty"` // built: number of sequential calls
 	FailAt int     `json:"failAt,omitempty"`
+	// objects: a history over several Funcs, some of them of one and the same
+	// Go function type, whose value sets are loaded and re-read in turn
+	Shapes [][]int `json:"shapes,omitempty"` // positional types (distinct within a shape) per shape
+	Named  []bool  `json:"namedShape,omitempty"`
+	Hs     []int   `json:"hs,omitempty"` // handle -> shape
+	Ops    []ObjOp `json:"ops,omitempty"`
+}
+
+// ObjOp is one step of an "objects" history.
+type ObjOp struct {
+	Op   string `json:"op"` // loadIn | loadOut | result | poke | renew
+	H    int    `json:"h"`
+	Base int    `json:"base,omitempty"`
+	I    int    `json:"i,omitempty"`
+	Out  bool   `json:"out,omitempty"`
 }
 
 func vsValues(vals []VSVal) []argmapper.Value {
@@ -58,6 +73,8 @@ func evalC15(c *engine.Case) engine.Verdict {
 			evalC15Lifted(&v, &x)
 		case "built":
 			evalC15Built(&v, c, &x)
+		case "objects":
+			evalC15Objects(&v, &x)
 		}
 	})
 	if o.Panic != "" {
@@ -335,6 +352,204 @@ func evalC15Lifted(v *engine.Verdict, x *C15Case) {
 	}
 }
 
+// evalC15Objects: every Func owns its input and output value set. Loading
+// values into the sets of one Func (FromSignature, FromResult, or through a
+// lookup pointer) is reported back by THAT Func's sets and by no other Func's,
+// a freshly created Func reports no values at all, and calling a Func does not
+// change what its sets hold -- whatever other Funcs of the same Go function
+// type exist. The model is a plain table handle -> side -> index -> token.
+func evalC15Objects(v *engine.Verdict, x *C15Case) {
+	type shape struct {
+		fn    interface{}
+		types []int
+		named bool
+	}
+	shapes := make([]shape, len(x.Shapes))
+	for si, ts := range x.Shapes {
+		ts := ts
+		sh := shape{types: ts, named: si < len(x.Named) && x.Named[si]}
+		if sh.named {
+			// struct form: fields F0.. of the listed types, in and out alike
+			sf := []reflect.StructField{{Name: "Struct", Type: reflect.TypeOf(argmapper.Struct{}), Anonymous: true}}
+			for i, t := range ts {
+				sf = append(sf, reflect.StructField{Name: fmt.Sprintf("F%d", i), Type: engine.Types[t]})
+			}
+			st := reflect.StructOf(sf)
+			ft := reflect.FuncOf([]reflect.Type{st}, []reflect.Type{st}, false)
+			sh.fn = reflect.MakeFunc(ft, func(a []reflect.Value) []reflect.Value { return a }).Interface()
+		} else {
+			var rt []reflect.Type
+			for _, t := range ts {
+				rt = append(rt, engine.Types[t])
+			}
+			ft := reflect.FuncOf(rt, rt, false)
+			sh.fn = reflect.MakeFunc(ft, func(a []reflect.Value) []reflect.Value { return a }).Interface()
+		}
+		shapes[si] = sh
+	}
+	type sideModel []int // token per value, 0 = nothing loaded
+	type handle struct {
+		f     *argmapper.Func
+		sh    shape
+		model [2]sideModel
+	}
+	mk := func(sh shape) *handle {
+		f, err := argmapper.NewFunc(sh.fn)
+		if err != nil {
+			v.Failf("NewFunc: %v", err)
+			return nil
+		}
+		return &handle{f: f, sh: sh, model: [2]sideModel{make(sideModel, len(sh.types)), make(sideModel, len(sh.types))}}
+	}
+	var hs []*handle
+	sameType := false
+	seenShape := map[int]bool{}
+	for _, si := range x.Hs {
+		h := mk(shapes[si%len(shapes)])
+		if h == nil {
+			return
+		}
+		if seenShape[si%len(shapes)] {
+			sameType = true
+		}
+		seenShape[si%len(shapes)] = true
+		hs = append(hs, h)
+	}
+	set := func(h *handle, out bool) *argmapper.ValueSet {
+		if out {
+			return h.f.Output()
+		}
+		return h.f.Input()
+	}
+	side := func(out bool) int {
+		if out {
+			return 1
+		}
+		return 0
+	}
+	verify := func(step int, op ObjOp) bool {
+		for hi, h := range hs {
+			for _, out := range []bool{false, true} {
+				got := set(h, out).Values()
+				m := h.model[side(out)]
+				if len(got) != len(m) {
+					v.Failf("after step %d (%+v): handle %d has %d values, want %d", step, op, hi, len(got), len(m))
+					return false
+				}
+				for i, g := range got {
+					ob := engine.Observe(g.Value)
+					if m[i] == 0 {
+						if g.Value.IsValid() {
+							v.Failf("after step %d (%+v): handle %d (out=%v) value %d holds #%d although nothing was ever loaded into this Func's set", step, op, hi, out, i, ob.Tok)
+							return false
+						}
+						continue
+					}
+					if !ob.Valid || ob.Tok != m[i] {
+						v.Failf("after step %d (%+v): handle %d (out=%v) value %d holds #%d (valid=%v), this Func's set was loaded with #%d", step, op, hi, out, i, ob.Tok, ob.Valid, m[i])
+						return false
+					}
+				}
+			}
+		}
+		return true
+	}
+	if !verify(-1, ObjOp{}) {
+		return
+	}
+	crossLoads := 0
+	lastLoaded := -1
+	for step, op := range x.Ops {
+		h := hs[op.H%len(hs)]
+		n := len(h.sh.types)
+		switch op.Op {
+		case "loadIn", "loadOut":
+			out := op.Op == "loadOut"
+			if h.sh.named {
+				// a struct-form signature is ONE value: the struct
+				st := reflect.New(reflect.TypeOf(h.sh.fn).In(0)).Elem()
+				for i, t := range h.sh.types {
+					st.Field(i + 1).Set(engine.MakeValue(t, op.Base+i))
+				}
+				if err := set(h, out).FromSignature([]reflect.Value{st}); err != nil {
+					v.Failf("FromSignature: %v", err)
+					return
+				}
+			} else {
+				vals := make([]reflect.Value, n)
+				for i, t := range h.sh.types {
+					vals[i] = engine.MakeValue(t, op.Base+i)
+				}
+				if err := set(h, out).FromSignature(vals); err != nil {
+					v.Failf("FromSignature: %v", err)
+					return
+				}
+			}
+			for i := range h.sh.types {
+				h.model[side(out)][i] = op.Base + i
+			}
+		case "result":
+			var args []argmapper.Arg
+			for i, t := range h.sh.types {
+				if h.sh.named {
+					args = append(args, argmapper.Named(fmt.Sprintf("f%d", i), engine.MakeValue(t, op.Base+i).Interface()))
+				} else {
+					args = append(args, argmapper.Typed(engine.MakeValue(t, op.Base+i).Interface()))
+				}
+			}
+			res := h.f.Call(append(args, engine.Quiet())...)
+			if res.Err() != nil {
+				v.Failf("Call: %.200s", res.Err())
+				return
+			}
+			if err := h.f.Output().FromResult(res); err != nil {
+				v.Failf("FromResult: %v", err)
+				return
+			}
+			for i := range h.sh.types {
+				h.model[1][i] = op.Base + i
+			}
+		case "poke":
+			if n == 0 {
+				continue
+			}
+			i := op.I % n
+			var p *argmapper.Value
+			if h.sh.named {
+				p = set(h, op.Out).Named(fmt.Sprintf("f%d", i))
+			} else {
+				p = set(h, op.Out).Typed(engine.Types[h.sh.types[i]])
+			}
+			if p == nil {
+				v.Failf("lookup of value %d of handle %d finds nothing", i, op.H%len(hs))
+				return
+			}
+			p.Value = engine.MakeValue(h.sh.types[i], op.Base)
+			h.model[side(op.Out)][i] = op.Base
+		case "renew":
+			nh := mk(h.sh)
+			if nh == nil {
+				return
+			}
+			hs[op.H%len(hs)] = nh
+		}
+		if op.Op != "renew" {
+			if lastLoaded >= 0 && lastLoaded != op.H%len(hs) {
+				crossLoads++
+			}
+			lastLoaded = op.H % len(hs)
+		}
+		if !verify(step, op) {
+			return
+		}
+	}
+	if sameType {
+		v.Class("objects-same-func-type")
+	}
+	v.Class(fmt.Sprintf("handles=%d", len(hs)))
+	v.NonTrivial = sameType && crossLoads >= 1
+}
+
 // normalize renders an event log with tokens replaced by their provenance, so
 // that twin worlds are comparable.
 func normalize(w *engine.World, evs []engine.Event) string {
@@ -482,6 +697,24 @@ func genC15(g engine.G) *engine.Case {
 				usedT[val.Type] = true
 			}
 			x.Vals = append(x.Vals, val)
+		}
+	case k == 4:
+		x.Mode = "objects"
+		ns := g.Int(1, 2)
+		for si := 0; si < ns; si++ {
+			perm := rapidPerm(g, []int{0, 1, 2, 3, 4, 5})
+			x.Shapes = append(x.Shapes, perm[:g.Int(1, 3)])
+			x.Named = append(x.Named, g.Pct(40))
+		}
+		nh := g.Int(2, 4)
+		for i := 0; i < nh; i++ {
+			x.Hs = append(x.Hs, g.Int(0, ns-1))
+		}
+		nops := g.Int(2, 10)
+		for i := 0; i < nops; i++ {
+			op := ObjOp{H: g.Int(0, nh-1), Base: 100 + 10*i, I: g.Int(0, 2), Out: g.Bool()}
+			op.Op = engine.Pick(g, []string{"loadIn", "loadOut", "result", "result", "poke", "poke", "renew"})
+			x.Ops = append(x.Ops, op)
 		}
 	case k < 6:
 		x.Mode = "lifted"
